@@ -47,6 +47,11 @@ fn main() {
                 }
             }
         }
+        "worker-c07" => {
+            common::install_quiet_panic_hook();
+            let code = props::c07::worker(&args[2..]);
+            std::process::exit(code);
+        }
         "worker-c01" => {
             let code = props::c01::worker(&args[2..]);
             std::process::exit(code);
